@@ -796,3 +796,58 @@ def check_round_last(ctx: CheckContext, p: Program, r: Resolver, funcs: List[Fun
                    "" if bad is None else f"`{ast.unparse(bad)[:70]}` (line {bad.lineno}) reads table '{tv}' after it was rounded in place at line {body[i0].lineno}: "
                                           f"the value carries the export rounding (4 decimals) instead of the computed one")
     return n
+
+
+# ------------------------------------------------------------------------------ COUNT-GUARD: data written to the table does not depend on the insertion count
+
+def check_count_guard(ctx: CheckContext, eng: InvalEngine, funcs: List[FuncInfo], rule: str = "COUNT-GUARD") -> int:
+    """In a function that inserts rows into a table and keeps the count (`n = X.insert_temperature_interval(T)`), the branch `if n > 0`
+    exists to re-fetch views and re-base indices.  Whether a breakpoint had to be inserted says nothing about whether the curve has to be
+    flattened / filled: a pocket that closes exactly on an existing row inserts nothing and still has to be flattened.  So no store into the
+    table's contents (through a column view, a slice of it, or X.col[...] / X.loc[...]) may be control-dependent on the count."""
+    ctx.rule(rule, "no store into a table's contents (through a column view or accessor) is control-dependent on the number of rows an insertion added: "
+                   "under `if n_added > 0` only views are re-fetched and indices re-based; one obligation per count-guarded branch")
+    n_ob = 0
+    for f in funcs:
+        if isinstance(f.node, ast.Lambda):
+            continue
+        counts: Dict[str, str] = {}
+        for x in body_nodes(f):
+            if isinstance(x, ast.Assign) and len(x.targets) == 1 and isinstance(x.targets[0], ast.Name) and isinstance(x.value, ast.Call):
+                evs = eng._event_of_call(f, x.value)
+                if any(k == "rows" for _v, k in evs) and isinstance(x.value.func, ast.Attribute) and x.value.func.attr in eng.events:
+                    counts[x.targets[0].id] = evs[0][0]
+        if not counts:
+            continue
+        tables = set(counts.values())
+        views: Set[str] = set()
+        for x in body_nodes(f):
+            if isinstance(x, ast.Assign):
+                tg = x.targets[0]
+                pairs = list(zip(tg.elts, x.value.elts)) if isinstance(tg, (ast.Tuple, ast.List)) and isinstance(x.value, (ast.Tuple, ast.List)) \
+                    and len(tg.elts) == len(x.value.elts) else [(tg, x.value)]
+                for t1, v1 in pairs:
+                    if isinstance(t1, ast.Name) and isinstance(v1, ast.Subscript) and any(isinstance(y, ast.Name) and y.id in tables for y in ast.walk(v1.value)):
+                        views.add(t1.id)
+        for x in body_nodes(f):
+            if not isinstance(x, ast.If):
+                continue
+            used = [c for c in counts if any(isinstance(y, ast.Name) and y.id == c for y in ast.walk(x.test))]
+            if not used:
+                continue
+            bad = []
+            for st in x.body:                                  # the branch taken when rows were added (orelse: nothing added - same argument)
+                for sub in ast.walk(st):
+                    tgs = sub.targets if isinstance(sub, ast.Assign) else [sub.target] if isinstance(sub, ast.AugAssign) else []
+                    for t in tgs:
+                        for s2 in ast.walk(t):
+                            if isinstance(s2, ast.Subscript) and isinstance(s2.ctx, ast.Store):
+                                names = {y.id for y in ast.walk(s2.value) if isinstance(y, ast.Name)}
+                                if names & views or names & tables:
+                                    bad.append(sub)
+            n_ob += 1
+            key = f"{f.qualname}:count-guard:{ast.unparse(x.test)[:50]}"
+            ctx.ob(rule, key, f"{f.module.relpath}:{x.lineno}", not bad,
+                   "" if not bad else f"`{norm_stmt(bad[0])[:90]}` (line {bad[0].lineno}) writes table contents only when `{ast.unparse(x.test)}` - i.e. only when the "
+                                      f"insertion added a row; when the breakpoint already exists (a pocket closing exactly on an existing row) the write is skipped")
+    return n_ob
